@@ -717,7 +717,7 @@ func Drive(w *ev.Writer, o Opts) {
 		nFlip = 1 // quick: one fully flipped body per version (shard k starts with version k)
 	}
 	if o.Tier == "thorough" {
-		nSmall, nBig, nFlip = 160, 12, 28
+		nSmall, nBig, nFlip = 150, 12, 20
 	}
 	if o.Shard == 0 {
 		fixtures(w)
